@@ -414,7 +414,41 @@ def run_case(acc, c, spec, stacks):
         pre = _copy.deepcopy(b["req"])
         how = prng.choice(["proof-node-256-bytes-last", "proof-node-256-bytes-last",
                            "proof-node-256-bytes-first", "proof-256-nodes",
-                           "input-beyond-last", "receipt-empty", "tx-trailing-byte"])
+                           "input-beyond-last", "receipt-empty", "tx-trailing-byte",
+                           "block-operation-cut", "block-operation-cut",
+                           "block-operation-cut"])
+        if how == "block-operation-cut":
+            # ... or it was an advanceBlockchain / updateAncestorBlock that the device
+            # refused (or that timed out) at one of its exchanges - the chunked transfers
+            # of all these commands go through the same helper
+            from ..gen import blocks as _gb
+            from ..simdev.transport import Fault as _F
+            blks = [_gb.gen_block(prng, 19, tiny=True), _gb.gen_block(prng, 20, tiny=True)]
+            if prng.random() < 0.6:
+                pre = {"command": "advanceBlockchain", "version": 5,
+                       "blocks": [b_["raw"].hex() for b_ in blks],
+                       "brothers": [[_gb.gen_block(prng, 19, tiny=True)["raw"].hex()], []]}
+            else:
+                pre = {"command": "updateAncestorBlock", "version": 5,
+                       "blocks": [b_["raw"].hex() for b_ in blks]}
+            cut = _F("sw", sw=prng.choice([0x6B9A, 0x6B88, 0x6B90, 0x6A8F])) \
+                if plat != "ledger" or prng.random() < 0.7 else _F("timeout")
+            s.bus.arm({prng.randint(1, 9): cut})
+            saved_policy = dev.adv_policy
+            dev.adv_policy = {}
+            rp, ep, _ = s.request(pre)
+            s.bus.arm({})
+            dev.adv_policy = saved_policy
+            if hasattr(dev, "reset_adv"):
+                dev.reset_adv()
+            dev.reset_sign()
+            acc.count("cases_preceded_by_a_block_operation_cut_short")
+            del s.bus.events[:]
+            if ep is not None:
+                s.__exit__(None, None, None)
+                stacks.pop(key, None)
+                return run_case(acc, c, spec, stacks)
+            how = None
         try:
             if how == "proof-node-256-bytes-last":
                 pre["auth"]["receipt_merkle_proof"] = [
@@ -428,8 +462,10 @@ def run_case(acc, c, spec, stacks):
                 pre["message"]["input"] = len(b["tx"]["ins"]) + prng.randint(0, 3)
             elif how == "receipt-empty":
                 pre["auth"]["receipt"] = ""
-            else:
+            elif how is not None:
                 pre["message"]["tx"] = pre["message"]["tx"] + "00"
+            if how is None:
+                raise KeyError("done above")
             rp, ep, _ = s.request(pre)
             acc.count("cases_preceded_by_a_sign_refused_late")
             dev.reset_sign()
